@@ -17,14 +17,22 @@
    the real plugin).  Mode "conc": the requests interleave freely at the granularity of the shared
    operations (sync.Pool Get/Put, source-id free list under p.mu, controller.In).
 
+   Buffers have IDENTITY: readBuff / eventBuff are slice headers over backing arrays (memR, memE); a request
+   OWNS an array from the pool Get (or allocation) until its explicit Put step; the pools hold ids.  The In
+   call of the final flush is NOT atomic (Flush = the call, InLast = the pipeline copies the bytes and In
+   returns): Pipeline.In may block under back pressure before it copies.  BufOwned / PendingStable state that
+   the final flush's In happens-before the Puts (mechanism M_PutAfterLastIn).
+
    Named abstractions (nothing else is idealised):
-     * slices are [arr, len]: arr = backing array content (stale bytes beyond len are kept), capacity /
-       re-allocation on append is not modelled (contents beyond len are never read by the code);
+     * capacity / re-allocation on append is not modelled: append always writes in place (the worst case for
+       sharing; in the faithful code contents beyond len are never read);
      * the byte scan inside processChunk is one recursive operator (PCLoop), one TLA+ step per Read and
-       one per processChunk call; the In calls of one processChunk are appended together;
+       one per processChunk call; the In calls made inside the read loop are atomic and appended together
+       (justified by BufOwned: during its read loop nobody else can write to a request's buffers);
      * sync.Pool: Get returns a pooled item (serial: always the last one put; conc: any, or none).
    Mutant switches (Mutant # "none") are NOT deviations of the code; they exist to show that the
-   invariants discriminate (checks/C11.py expects TLC to reject each of them).                         *)
+   invariants discriminate (checks/C11.py expects TLC to reject each of them).  put_before_last_in is the
+   switch of mechanism M_PutAfterLastIn (Puts right after the read loop, before the tail is handed over). *)
 EXTENDS Integers, Sequences, FiniteSets, TLC, Json
 
 CONSTANTS Mode,          \* "serial" | "conc"
@@ -38,9 +46,12 @@ NL == 0
 FRESH == -1              \* a byte of a freshly made buffer that was never written
 
 VARIABLES cs,            \* the case: sequence of requests [body, sizes, end, zr]
-          pc,            \* per request: idle getR getE getSid read chunk flush putSid putE putR status done
-          rb, rn,        \* per request: readBuff (array content), n of the last Read
-          eb,            \* per request: eventBuff  [arr, len]
+          pc,            \* per request: idle getR getE getSid read chunk flush inlast putSid putE putR status done
+          rbuf, rn,      \* per request: readBuff (id of its backing array), n of the last Read
+          eb,            \* per request: eventBuff slice header [id, len]   (id of the backing array)
+          pend,          \* per request: the slice [id, len] handed to an In call that has not copied it yet (id 0 = none)
+          memR, memE,    \* the backing arrays: id -> content (stale bytes beyond len are kept)
+          nR, nE,        \* number of arrays allocated so far
           sid,           \* per request: source id held (-1 = none)
           k, off,        \* per request: index of the next scripted read, bytes consumed so far
           res,           \* per request: "" | "ok" | "err"   (processBulk's result)
@@ -50,7 +61,7 @@ VARIABLES cs,            \* the case: sequence of requests [body, sizes, end, zr
           ncalls,        \* history: per request, number of In calls made
           status, statusAt    \* per request: HTTP status written (0 = none), ncalls at that moment
 
-vars == <<cs, pc, rb, rn, eb, sid, k, off, res, poolR, poolE, freeSids, sidSeq, slog, ncalls, status, statusAt>>
+vars == <<cs, pc, rbuf, rn, eb, pend, memR, memE, nR, nE, sid, k, off, res, poolR, poolE, freeSids, sidSeq, slog, ncalls, status, statusAt>>
 
 -----------------------------------------------------------------------------
 (* helpers *)
@@ -150,13 +161,19 @@ ProcessChunk(chunk, e, isLast) ==
 
 -----------------------------------------------------------------------------
 Reqs == 1..Len(cs)
-Holding == {"read", "chunk", "flush", "putSid"}     \* between getSourceID and putSourceID
+BufIds == 1..Len(cs)                     \* every request allocates at most one buffer of each kind
+
+\* the request's eventBuff as a value [arr, len] (its slice header [id, len] over the shared backing array)
+EB(i) == [arr |-> memE[eb[i].id], len |-> eb[i].len]
+RBuf(i) == memR[rbuf[i]]
 
 Init ==
   /\ CaseInit
   /\ pc = [i \in Reqs |-> "idle"]
-  /\ rb = [i \in Reqs |-> <<>>] /\ rn = [i \in Reqs |-> 0]
-  /\ eb = [i \in Reqs |-> [arr |-> <<>>, len |-> 0]]
+  /\ rbuf = [i \in Reqs |-> 0] /\ rn = [i \in Reqs |-> 0]
+  /\ eb = [i \in Reqs |-> [id |-> 0, len |-> 0]]
+  /\ pend = [i \in Reqs |-> [id |-> 0, len |-> 0]]
+  /\ memR = [b \in BufIds |-> <<>>] /\ memE = [b \in BufIds |-> <<>>] /\ nR = 0 /\ nE = 0
   /\ sid = [i \in Reqs |-> -1]
   /\ k = [i \in Reqs |-> 1] /\ off = [i \in Reqs |-> 0]
   /\ res = [i \in Reqs |-> ""]
@@ -169,32 +186,48 @@ RemoveAt(s, j) == SubSeq(s, 1, j - 1) \o SubSeq(s, j + 1, Len(s))
 \* which pooled item a Get may return: serial = the one put last (or none if empty); conc = any, or none
 PoolChoices(pool) == IF Mode = "serial" THEN (IF pool = <<>> THEN {0} ELSE {Len(pool)}) ELSE 0..Len(pool)
 
+\* order of the steps after the read loop.
+\* code:    [EOF] flush (In of the tail) -> putSid -> putE -> putR -> status     [err] putSid -> putE -> putR -> status
+\* mutant put_before_last_in (mechanism M_PutAfterLastIn disabled: buffers go back to the pools right after the loop):
+\*          [EOF] putE -> putR -> flush (In of the tail) -> putSid -> status     [err] putE -> putR -> putSid -> status
+PBL == Mutant = "put_before_last_in"
+AfterLoop(i) == IF PBL THEN "putE" ELSE "flush"
+AfterLoopErr(i) == IF PBL THEN "putE" ELSE "putSid"
+AfterFlush(i) == "putSid"
+AfterPutSid(i) == IF PBL THEN "status" ELSE "putE"
+AfterPutR(i, r) == IF PBL THEN (IF r = "err" THEN "putSid" ELSE "flush") ELSE "status"
+
 (* ServeHTTP -> serveBulk -> processBulk entered *)
 Start(i) ==
   /\ pc[i] = "idle"
   /\ IF Mode = "serial" /\ i > 1 THEN pc[i - 1] = "done" ELSE TRUE
   /\ pc' = [pc EXCEPT ![i] = "getR"]
-  /\ UNCHANGED <<cs, rb, rn, eb, sid, k, off, res, poolR, poolE, freeSids, sidSeq, slog, ncalls, status, statusAt>>
+  /\ UNCHANGED <<cs, rbuf, rn, eb, pend, memR, memE, nR, nE, sid, k, off, res, poolR, poolE, freeSids, sidSeq, slog, ncalls, status, statusAt>>
 
-(* readBuff := p.newReadBuff() *)
+(* readBuff := p.newReadBuff()      -- from now on the request OWNS this buffer, until readBuffs.Put *)
 GetR(i) ==
   /\ pc[i] = "getR"
   /\ \E j \in PoolChoices(poolR) :
-       IF j = 0 THEN /\ rb' = [rb EXCEPT ![i] = [x \in 1..RB |-> FRESH]] /\ UNCHANGED poolR
-                ELSE /\ rb' = [rb EXCEPT ![i] = poolR[j]] /\ poolR' = RemoveAt(poolR, j)
+       IF j = 0 THEN /\ rbuf' = [rbuf EXCEPT ![i] = nR + 1] /\ nR' = nR + 1
+                     /\ memR' = [memR EXCEPT ![nR + 1] = [x \in 1..RB |-> FRESH]]
+                     /\ UNCHANGED poolR
+                ELSE /\ rbuf' = [rbuf EXCEPT ![i] = poolR[j]] /\ poolR' = RemoveAt(poolR, j)
+                     /\ UNCHANGED <<nR, memR>>
   /\ pc' = [pc EXCEPT ![i] = "getE"]
-  /\ UNCHANGED <<cs, rn, eb, sid, k, off, res, poolE, freeSids, sidSeq, slog, ncalls, status, statusAt>>
+  /\ UNCHANGED <<cs, rn, eb, pend, memE, nE, sid, k, off, res, poolE, freeSids, sidSeq, slog, ncalls, status, statusAt>>
 
-(* eventBuff := p.newEventBuffs()  -- pooled buffer re-sliced to [:0] *)
+(* eventBuff := p.newEventBuffs()   -- pooled buffer re-sliced to [:0]; owned until eventBuffs.Put *)
 GetE(i) ==
   /\ pc[i] = "getE"
   /\ \E j \in PoolChoices(poolE) :
-       IF j = 0 THEN /\ eb' = [eb EXCEPT ![i] = [arr |-> <<>>, len |-> 0]] /\ UNCHANGED poolE
-                ELSE /\ eb' = [eb EXCEPT ![i] = [arr |-> poolE[j].arr,
+       IF j = 0 THEN /\ eb' = [eb EXCEPT ![i] = [id |-> nE + 1, len |-> 0]] /\ nE' = nE + 1
+                     /\ UNCHANGED poolE
+                ELSE /\ eb' = [eb EXCEPT ![i] = [id |-> poolE[j].id,
                                                  len |-> IF Mutant = "no_reslice_on_get" THEN poolE[j].len ELSE 0]]
                      /\ poolE' = RemoveAt(poolE, j)
+                     /\ UNCHANGED nE
   /\ pc' = [pc EXCEPT ![i] = "getSid"]
-  /\ UNCHANGED <<cs, rb, rn, sid, k, off, res, poolR, freeSids, sidSeq, slog, ncalls, status, statusAt>>
+  /\ UNCHANGED <<cs, rbuf, rn, pend, memR, memE, nR, sid, k, off, res, poolR, freeSids, sidSeq, slog, ncalls, status, statusAt>>
 
 (* sourceID := p.getSourceID()   (under p.mu) *)
 GetSid(i) ==
@@ -206,72 +239,91 @@ GetSid(i) ==
             /\ freeSids' = IF Mutant = "sid_early_release" THEN freeSids ELSE SubSeq(freeSids, 1, Len(freeSids) - 1)
             /\ UNCHANGED sidSeq
   /\ pc' = [pc EXCEPT ![i] = "read"]
-  /\ UNCHANGED <<cs, rb, rn, eb, k, off, res, poolR, poolE, slog, ncalls, status, statusAt>>
+  /\ UNCHANGED <<cs, rbuf, rn, eb, pend, memR, memE, nR, nE, k, off, res, poolR, poolE, slog, ncalls, status, statusAt>>
 
 (* n, err := r.Read(readBuff) and the three-way branch after it *)
 Read(i) ==
   /\ pc[i] = "read"
   /\ LET s == Script(cs[i])[k[i]] IN
        IF s.n = 0 /\ s.e = "eof"
-         THEN /\ pc' = [pc EXCEPT ![i] = "flush"]                              \* break
-              /\ UNCHANGED <<rb, rn, k, off, res>>
+         THEN /\ pc' = [pc EXCEPT ![i] = AfterLoop(i)]                         \* break
+              /\ UNCHANGED <<memR, rn, k, off, res>>
        ELSE IF s.e = "err"
-         THEN /\ pc' = [pc EXCEPT ![i] = "putSid"] /\ res' = [res EXCEPT ![i] = "err"]   \* return err (deferred puts run)
-              /\ UNCHANGED <<rb, rn, k, off>>
-         ELSE /\ rb' = [rb EXCEPT ![i] = SubSeq(cs[i].body, off[i] + 1, off[i] + s.n) \o SubSeq(rb[i], s.n + 1, RB)]
+         THEN /\ pc' = [pc EXCEPT ![i] = AfterLoopErr(i)] /\ res' = [res EXCEPT ![i] = "err"]   \* return err
+              /\ UNCHANGED <<memR, rn, k, off>>
+         ELSE /\ memR' = [memR EXCEPT ![rbuf[i]] = SubSeq(cs[i].body, off[i] + 1, off[i] + s.n) \o SubSeq(@, s.n + 1, RB)]
               /\ rn' = [rn EXCEPT ![i] = s.n]
               /\ off' = [off EXCEPT ![i] = off[i] + s.n]
               /\ k' = [k EXCEPT ![i] = IF k[i] < Len(Script(cs[i])) THEN k[i] + 1 ELSE k[i]]
               /\ pc' = [pc EXCEPT ![i] = "chunk"]
               /\ UNCHANGED res
-  /\ UNCHANGED <<cs, eb, sid, poolR, poolE, freeSids, sidSeq, slog, ncalls, status, statusAt>>
+  /\ UNCHANGED <<cs, rbuf, eb, pend, memE, nR, nE, sid, poolR, poolE, freeSids, sidSeq, slog, ncalls, status, statusAt>>
 
 Emit(i, out) ==
   /\ slog' = [slog EXCEPT ![sid[i]] = @ \o [j \in 1..Len(out) |-> [req |-> i, data |-> out[j]]]]
   /\ ncalls' = [ncalls EXCEPT ![i] = @ + Len(out)]
 
-(* eventBuff = p.processChunk(sourceID, readBuff[:n], eventBuff, false, meta) *)
+(* eventBuff = p.processChunk(sourceID, readBuff[:n], eventBuff, false, meta)
+   The In calls made here hand over slices of readBuff / eventBuff; they are recorded with the bytes the slices
+   hold at the call (named abstraction: these In calls are atomic -- justified by BufOwned: while the request is
+   in its read loop nobody else can write to its buffers).                                                     *)
 Chunk(i) ==
   /\ pc[i] = "chunk"
-  /\ LET r == ProcessChunk(SubSeq(rb[i], 1, rn[i]), eb[i], FALSE) IN
-       /\ eb' = [eb EXCEPT ![i] = r.eb]
+  /\ LET r == ProcessChunk(SubSeq(RBuf(i), 1, rn[i]), EB(i), FALSE) IN
+       /\ memE' = [memE EXCEPT ![eb[i].id] = r.eb.arr]
+       /\ eb' = [eb EXCEPT ![i].len = r.eb.len]
        /\ Emit(i, r.out)
   /\ pc' = [pc EXCEPT ![i] = "read"]
-  /\ UNCHANGED <<cs, rb, rn, sid, k, off, res, poolR, poolE, freeSids, sidSeq, status, statusAt>>
+  /\ UNCHANGED <<cs, rbuf, rn, pend, memR, nR, nE, sid, k, off, res, poolR, poolE, freeSids, sidSeq, status, statusAt>>
 
-(* if len(eventBuff) > 0 { processChunk(sourceID, readBuff[:0], eventBuff, true, meta) }; return nil *)
+(* if len(eventBuff) > 0 { processChunk(sourceID, readBuff[:0], eventBuff, true, meta) }; return nil
+   processChunk with an empty chunk and isLastChunk: In(append(eventBuff, readBuff[0:0]...)) = In(eventBuff).
+   This In is NOT atomic: controller.In may block (back pressure: no free event) BEFORE it copies the bytes.
+   Flush = the call (the slice [id, len] is handed over), InLast = the pipeline copies the bytes, In returns.   *)
 Flush(i) ==
   /\ pc[i] = "flush"
   /\ IF (eb[i].len > 0 /\ Mutant # "no_final_flush") \/ Mutant = "flush_always"
-       THEN LET r == ProcessChunk(<<>>, eb[i], TRUE) IN
-              /\ eb' = [eb EXCEPT ![i] = r.eb]
-              /\ Emit(i, r.out)
-       ELSE UNCHANGED <<eb, slog, ncalls>>
+       THEN /\ pend' = [pend EXCEPT ![i] = eb[i]]
+            /\ pc' = [pc EXCEPT ![i] = "inlast"]
+            /\ UNCHANGED res
+       ELSE /\ res' = [res EXCEPT ![i] = "ok"]
+            /\ pc' = [pc EXCEPT ![i] = AfterFlush(i)]
+            /\ UNCHANGED pend
   /\ IF Mutant = "early_status"        \* mutant: status written before the carry-over is flushed
        THEN status' = [status EXCEPT ![i] = 200] /\ statusAt' = [statusAt EXCEPT ![i] = ncalls[i]]
        ELSE UNCHANGED <<status, statusAt>>
+  /\ UNCHANGED <<cs, rbuf, rn, eb, memR, memE, nR, nE, sid, k, off, poolR, poolE, freeSids, sidSeq, slog, ncalls>>
+
+InLast(i) ==
+  /\ pc[i] = "inlast"
+  /\ Emit(i, << SubSeq(memE[pend[i].id], 1, pend[i].len) >>)       \* the bytes the buffer holds NOW
+  /\ pend' = [pend EXCEPT ![i] = [id |-> 0, len |-> 0]]
+  /\ eb' = [eb EXCEPT ![i].len = 0]                                  \* eventBuff = eventBuff[:0]
   /\ res' = [res EXCEPT ![i] = "ok"]
-  /\ pc' = [pc EXCEPT ![i] = "putSid"]
-  /\ UNCHANGED <<cs, rb, rn, sid, k, off, poolR, poolE, freeSids, sidSeq>>
+  /\ pc' = [pc EXCEPT ![i] = AfterFlush(i)]
+  /\ UNCHANGED <<cs, rbuf, rn, memR, memE, nR, nE, sid, k, off, poolR, poolE, freeSids, sidSeq, status, statusAt>>
 
 (* deferred, in LIFO order: p.putSourceID(sourceID); p.eventBuffs.Put(&eventBuff); p.readBuffs.Put(&readBuff) *)
 PutSid(i) ==
   /\ pc[i] = "putSid"
   /\ freeSids' = IF Mutant = "sid_early_release" THEN freeSids ELSE Append(freeSids, sid[i])
-  /\ pc' = [pc EXCEPT ![i] = "putE"]
-  /\ UNCHANGED <<cs, rb, rn, eb, sid, k, off, res, poolR, poolE, sidSeq, slog, ncalls, status, statusAt>>
+  /\ sid' = [sid EXCEPT ![i] = -1]
+  /\ pc' = [pc EXCEPT ![i] = AfterPutSid(i)]
+  /\ UNCHANGED <<cs, rbuf, rn, eb, pend, memR, memE, nR, nE, k, off, res, poolR, poolE, sidSeq, slog, ncalls, status, statusAt>>
 
+(* p.eventBuffs.Put(&eventBuff): ownership of the buffer ends here *)
 PutE(i) ==
   /\ pc[i] = "putE"
   /\ poolE' = Append(poolE, eb[i])
   /\ pc' = [pc EXCEPT ![i] = "putR"]
-  /\ UNCHANGED <<cs, rb, rn, eb, sid, k, off, res, poolR, freeSids, sidSeq, slog, ncalls, status, statusAt>>
+  /\ UNCHANGED <<cs, rbuf, rn, eb, pend, memR, memE, nR, nE, sid, k, off, res, poolR, freeSids, sidSeq, slog, ncalls, status, statusAt>>
 
+(* p.readBuffs.Put(&readBuff): ownership of the buffer ends here *)
 PutR(i) ==
   /\ pc[i] = "putR"
-  /\ poolR' = Append(poolR, rb[i])
-  /\ pc' = [pc EXCEPT ![i] = "status"]
-  /\ UNCHANGED <<cs, rb, rn, eb, sid, k, off, res, poolE, freeSids, sidSeq, slog, ncalls, status, statusAt>>
+  /\ poolR' = Append(poolR, rbuf[i])
+  /\ pc' = [pc EXCEPT ![i] = AfterPutR(i, res[i])]
+  /\ UNCHANGED <<cs, rbuf, rn, eb, pend, memR, memE, nR, nE, sid, k, off, res, poolE, freeSids, sidSeq, slog, ncalls, status, statusAt>>
 
 (* serveBulk after processBulk returned: http.Error(400) on error, else w.Write(result) = 200 *)
 Status(i) ==
@@ -281,20 +333,20 @@ Status(i) ==
             /\ statusAt' = [statusAt EXCEPT ![i] = ncalls[i]]
        ELSE UNCHANGED <<status, statusAt>>
   /\ pc' = [pc EXCEPT ![i] = "done"]
-  /\ UNCHANGED <<cs, rb, rn, eb, sid, k, off, res, poolR, poolE, freeSids, sidSeq, slog, ncalls>>
+  /\ UNCHANGED <<cs, rbuf, rn, eb, pend, memR, memE, nR, nE, sid, k, off, res, poolR, poolE, freeSids, sidSeq, slog, ncalls>>
 
-Next == \E i \in Reqs : Start(i) \/ GetR(i) \/ GetE(i) \/ GetSid(i) \/ Read(i) \/ Chunk(i) \/ Flush(i)
+Next == \E i \in Reqs : Start(i) \/ GetR(i) \/ GetE(i) \/ GetSid(i) \/ Read(i) \/ Chunk(i) \/ Flush(i) \/ InLast(i)
                         \/ PutSid(i) \/ PutE(i) \/ PutR(i) \/ Status(i)
 
 Spec == Init /\ [][Next]_vars
 
 -----------------------------------------------------------------------------
 (* properties *)
-PCs == {"idle", "getR", "getE", "getSid", "read", "chunk", "flush", "putSid", "putE", "putR", "status", "done"}
-TypeOK == /\ \A i \in Reqs : pc[i] \in PCs /\ status[i] \in {0, 200, 400} /\ eb[i].len <= Len(eb[i].arr)
-          /\ Len(poolR) <= Len(cs) /\ Len(poolE) <= Len(cs) /\ sidSeq <= Len(cs)
+PCs == {"idle", "getR", "getE", "getSid", "read", "chunk", "flush", "inlast", "putSid", "putE", "putR", "status", "done"}
+TypeOK == /\ \A i \in Reqs : pc[i] \in PCs /\ status[i] \in {0, 200, 400}
+          /\ Len(poolR) <= Len(cs) /\ Len(poolE) <= Len(cs) /\ sidSeq <= Len(cs) /\ nR <= Len(cs) /\ nE <= Len(cs)
 
-OracleSane == \A i \in Reqs : OracleOK(cs[i].body)
+OracleSane == (\A i \in Reqs : pc[i] = "idle") => \A i \in Reqs : OracleOK(cs[i].body)
 
 \* the data of the In calls of request i, in order (calls of one request under one sid are in order;
 \* a request uses one sid, so its calls are the projection of that sid's log)
@@ -302,9 +354,10 @@ ReqData(i) ==
   LET all == Flatten([s \in 1..Len(cs) |-> SelectSeq(slog[s - 1], LAMBDA e : e.req = i)])
   IN [j \in 1..Len(all) |-> all[j].data]
 
-Finished(i) == pc[i] \in {"putSid", "putE", "putR", "status", "done"}
+\* processBulk is past its last In
+Finished(i) == res[i] # "" /\ pc[i] \notin {"flush", "inlast"}
 
-\* C11 (1): when processBulk returned without error the events are exactly the lines of the body
+\* C11 (1): when processBulk is through without error the events are exactly the lines of the body
 LinesExact == \A i \in Reqs : Finished(i) /\ res[i] = "ok" => ReqData(i) = Expected(cs[i].body)
 
 \* at every moment what was handed over is a prefix of the expected lines (no dup, no reorder, no foreign line)
@@ -317,7 +370,7 @@ CarryIsTail ==
     LET consumed == SubSeq(cs[i].body, 1, off[i])
         nls == {j \in 1..off[i] : consumed[j] = NL}
         lastNL == IF nls = {} THEN 0 ELSE CHOOSE j \in nls : \A m \in nls : m <= j
-    IN /\ Live(eb[i]) = SubSeq(consumed, lastNL + 1, off[i])
+    IN /\ Live(EB(i)) = SubSeq(consumed, lastNL + 1, off[i])
        /\ ReqData(i) = Expected(SubSeq(consumed, 1, lastNL))
 
 \* C11 (2): 200 only after every line of the body has been handed over; never on a reader error
@@ -329,7 +382,7 @@ OKOnlyAfterAllLines ==
 NoOKOnError == \A i \in Reqs : pc[i] = "done" /\ cs[i].end = "err" => status[i] = 400
 
 \* C11 (3): concurrently served requests hold different source ids ...
-SidExclusive == \A i, j \in Reqs : i # j /\ pc[i] \in Holding /\ pc[j] \in Holding => sid[i] # sid[j]
+SidExclusive == \A i, j \in Reqs : i # j /\ sid[i] # -1 /\ sid[j] # -1 => sid[i] # sid[j]
 \* ... so under one source id the calls of two requests never interleave ...
 NoMixing ==
   \A s \in DOMAIN slog :
@@ -339,9 +392,25 @@ NoForeignBytes ==
   \A s \in DOMAIN slog : \A a \in 1..Len(slog[s]) :
     LET e == slog[s][a] IN \A j \in 1..Len(e.data) : \E m \in 1..Len(cs[e.req].body) : cs[e.req].body[m] = e.data[j]
 
+\* Buffer ownership (mechanism M_PutAfterLastIn): a request that is still going to touch its buffers -- in particular
+\* one whose last In has been called but has not copied the bytes yet (pc = "inlast") -- owns them: they are neither
+\* back in a pool nor in the hands of another such request.  The final flush's In happens-before the Puts.
+UsesE(i) == pc[i] \in {"getSid", "read", "chunk", "flush", "inlast"}
+UsesR(i) == pc[i] \in {"getE", "getSid", "read", "chunk", "flush", "inlast"}
+BufOwned ==
+  /\ \A i \in Reqs : UsesE(i) => /\ \A j \in 1..Len(poolE) : poolE[j].id # eb[i].id
+                                 /\ \A j \in Reqs : j # i /\ UsesE(j) => eb[j].id # eb[i].id
+  /\ \A i \in Reqs : UsesR(i) => /\ \A j \in 1..Len(poolR) : poolR[j] # rbuf[i]
+                                 /\ \A j \in Reqs : j # i /\ UsesR(j) => rbuf[j] # rbuf[i]
+\* the observable half of it: while an In is pending, the bytes it was given do not change
+PendingStable == \A i \in Reqs : pc[i] = "inlast" =>
+                    LET e == Expected(cs[i].body)
+                    IN e # <<>> /\ SubSeq(memE[pend[i].id], 1, pend[i].len) = e[Len(e)]
+
 AllDone == \A i \in Reqs : pc[i] = "done"
 \* everything taken is given back
-Balanced == AllDone => Len(freeSids) = sidSeq /\ \A i \in Reqs : eb[i].len = 0 \/ res[i] = "err"
+Balanced == AllDone => /\ Len(freeSids) = sidSeq /\ Len(poolE) = nE /\ Len(poolR) = nR
+                       /\ \A i \in Reqs : eb[i].len = 0 \/ res[i] = "err"
 
 -----------------------------------------------------------------------------
 (* export of every explored serial case with the declaratively expected lines, for replay *)
